@@ -1,0 +1,34 @@
+//go:build verif
+// +build verif
+
+// Package verifbl re-exports the internal blocklist for the verification
+// harness (build tag "verif" only): Go forbids importing internal/ packages
+// from outside pkg/p2p/libp2p, and package libp2p itself pulls in quic-go.
+package verifbl
+
+import (
+	"time"
+
+	"github.com/gauss-project/aurorafs/pkg/boson"
+	"github.com/gauss-project/aurorafs/pkg/p2p"
+	"github.com/gauss-project/aurorafs/pkg/p2p/libp2p/internal/blocklist"
+	"github.com/gauss-project/aurorafs/pkg/storage"
+)
+
+// Blocklist is the internal blocklist, unchanged.
+type Blocklist struct{ b *blocklist.Blocklist }
+
+// New is blocklist.NewBlocklist.
+func New(store storage.StateStorer) *Blocklist {
+	return &Blocklist{b: blocklist.NewBlocklist(store)}
+}
+
+func (v *Blocklist) Exists(overlay boson.Address) (bool, error) { return v.b.Exists(overlay) }
+func (v *Blocklist) Add(overlay boson.Address, d time.Duration) error {
+	return v.b.Add(overlay, d)
+}
+func (v *Blocklist) Remove(overlay boson.Address) error { return v.b.Remove(overlay) }
+func (v *Blocklist) Peers() ([]p2p.BlockPeers, error)   { return v.b.Peers() }
+
+// SetTimeNow sets the blocklist package's time source (nil = time.Now).
+func SetTimeNow(f func() time.Time) { blocklist.VerifSetTimeNow(f) }
